@@ -440,7 +440,10 @@ impl C04 {
                 2 => ops.push(Op::SetDr(*r.pick(&drs))),
                 3 => ops.push(Op::SetAdr(r.chance(1, 2))),
                 _ => {
-                    let txn = gen_txn(&mut r, &cfg, false);
+                    let mut txn = gen_txn(&mut r, &cfg, false);
+                    if r.chance(1, 30) {
+                        txn.rng_stuck = Some(gen_rng_stuck(&mut r));
+                    }
                     ops.push(Op::Send { port: r.range(1, 223) as u8, len: send_len_or_max(&mut r), confirmed: r.chance(1, 3), txn });
                 }
             }
